@@ -613,7 +613,17 @@ def judge_c05(case, i, m):
     return None
 
 
-JUDGES = {'C03': judge_c03, 'C04': judge_c04, 'C05': judge_c05}
+def total(judge):
+    """a judge must never raise on an unexpected implementation outcome: a failure of the judge is a finding of its own"""
+    def safe(case, i, m):
+        try:
+            return judge(case, i, m)
+        except Exception as ex:       # noqa
+            return f'unexpected shape of the observed outcome ({type(ex).__name__}: {ex}): implementation {json.dumps({k: v for k, v in i.items() if k != "fn"})[:300]}'
+    return safe
+
+
+JUDGES = {'C03': total(judge_c03), 'C04': total(judge_c04), 'C05': total(judge_c05)}
 
 
 # ------------------------------------------------------------------------------------------ known findings
@@ -857,7 +867,10 @@ def run(pid, props, tier, seed, replay=None):
         for flag in ('c03_args_bad', 'c03_result_bad', 'c04_call_ok', 'c05_positional'):
             if m[flag]: bump('spec:' + flag)
         what = judge(c, i, m)
-        corr = judge_corr(c, i, m)
+        try:
+            corr = judge_corr(c, i, m)
+        except Exception as ex:      # noqa
+            corr = f'outcome of an unexpected shape ({type(ex).__name__}: {ex})'
         if what:
             cc = dict(c, _fn=i['fn'])
             ck.violation(what, cc, stream='pedantic/' + c['stream'], extra={'impl': {k: v for k, v in i.items() if k != 'fn'}, 'model': m},
@@ -1030,21 +1043,29 @@ def gen_judge_corr(case, i, m):
     return None
 
 
+def flag(lst, k, default=0):
+    """total lookup: the oracle lists are empty when the model says the call itself fails"""
+    return lst[k] if 0 <= k < len(lst) else default
+
+
 def gen_judge_c03(case, i, m):
     if m['c03_args_bad']:
         if i['journal']:
             return 'a supplied value does not conform to its annotation, but the generator body ran'
-        if i['out'] != 1 and not case['args']:
+        strict = not case['args'] or has_varpos(i['fn'])
+        if strict and i['out'] != 1:
             return f'a supplied value does not conform: PedanticTypeCheckException expected, got outcome {i["out"]} ({i.get("exc")})'
+        if not strict and i['out'] not in PEDANTIC:
+            return f'a supplied value does not conform in a positional call: a PedanticException expected, got {i["out"]} ({i.get("exc")})'
     if i['out'] != 0:
         return None
-    for idx, (kind, code, ident) in enumerate(i['ops']):
-        op = case['ops'][idx]
-        if kind == 0 and ((0 <= ident < 1000 and m['bad_yield'][ident]) or (ident == 1000 and m['bad_throw'][0])):
+    for idx, (kind, code, ident) in enumerate(i.get('ops') or []):
+        op = case['ops'][idx] if idx < len(case['ops']) else ['?']
+        if kind == 0 and ((0 <= ident < 1000 and flag(m['bad_yield'], ident)) or (ident == 1000 and flag(m['bad_throw'], 0))):
             return f'operation {idx} ({op[0]}): a yielded value that does not conform to the yield type was handed to the caller'
-        if kind == 1 and ((0 <= ident < 1000 and m['bad_ret'][ident]) or (ident == 1000 and m['bad_throw'][1])):
+        if kind == 1 and ((0 <= ident < 1000 and flag(m['bad_ret'], ident)) or (ident == 1000 and flag(m['bad_throw'], 1))):
             return f'operation {idx} ({op[0]}): the generator returned a value that does not conform to the return type; the caller got StopIteration with it'
-        if op[0] == 'send' and m['bad_sent'][idx] and initialized_before(case, idx) and not (kind == 2 and code == 1):
+        if op[0] == 'send' and flag(m['bad_sent'], idx) and initialized_before(case, idx) and not (kind == 2 and code == 1):
             return f'operation {idx}: a sent value that does not conform to the send type was not rejected with PedanticTypeCheckException'
     return None
 
@@ -1058,10 +1079,10 @@ def gen_judge_c04(case, i, m):
         return None            # not a generator annotation: C06 territory
     if m['out'] != 0:          # the model says the call itself fails: only the call can be judged
         return None if i['out'] == 0 else f'conforming keyword call of a generator function: outcome {i["out"]} ({i.get("exc")})'
-    ok = all((m['ok_yield'][k] if s[0] == 'yield' else m['ok_ret'][k] if s[0] == 'ret' else 1) for k, s in enumerate(script))
-    ok = ok and all(m['ok_sent'][idx] for idx, o in enumerate(case['ops']) if o[0] in ('send', 'next') and initialized_before(case, idx))
+    ok = all((flag(m['ok_yield'], k) if s[0] == 'yield' else flag(m['ok_ret'], k) if s[0] == 'ret' else 1) for k, s in enumerate(script))
+    ok = ok and all(flag(m['ok_sent'], idx) for idx, o in enumerate(case['ops']) if o[0] in ('send', 'next') and initialized_before(case, idx))
     if case.get('on_throw', 'propagate') != 'propagate':
-        ok = ok and m['ok_throw'][0 if case['on_throw'][0] == 'yield' else 1]
+        ok = ok and flag(m['ok_throw'], 0 if case['on_throw'][0] == 'yield' else 1)
     if not ok:
         return None
     if i['out'] != 0:
